@@ -1451,6 +1451,76 @@ def np_arange(interp, args, kw):
 axiom("arange", "np.arange(a, b, step)[j] = a + j*step for the j with a + j*step < b (step > 0)")
 
 
+def np_ceil(interp, args, kw):
+    """np.ceil / math.ceil of a symbolic real: the integer c with x <= c < x + 1."""
+    a = args[0]
+    if not is_sym(a):
+        import math as _m
+        return float(_m.ceil(a))
+    e = to_real(num_expr(a))
+    cnt = interp.__dict__.setdefault("_nceil", [0])
+    cnt[0] += 1
+    k = z3.Int("ceil!%d" % cnt[0])
+    interp.assume(z3.And(e <= z3.ToReal(k), z3.ToReal(k) < e + 1))
+    return Sym(z3.ToReal(k))
+
+
+def np_where3(interp, args, kw):
+    """np.where(cond, a, b) elementwise (1-D)."""
+    if len(args) != 3:
+        raise OutsideSubset("np.where with one argument")
+    cnd, a, b = args
+    used(interp, "elementwise")
+    n, cget, _ = seq_view_frozen(interp, cnd)
+    ga = (lambda j, e=num_expr(a): e) if is_scalar(a) else seq_view_frozen(interp, a)[1]
+    gb = (lambda j, e=num_expr(b): e) if is_scalar(b) else seq_view_frozen(interp, b)[1]
+
+    def get(j):
+        x, y = _coerce2(ga(j), gb(j))
+        return z3.If(cget(j), x, y)
+    probe = get(z3.Int("probe!"))
+    return interp.array_from_fn(get, n, "real" if z3.is_real(probe) else "int", "where")
+
+
+def np_argsort(interp, args, kw):
+    """np.argsort of a concrete-length array: SOME permutation that orders the keys (ties in any order,
+    as numpy's default sort is not stable)."""
+    a = args[0]
+    n, get, k = seq_view_frozen(interp, a)
+    if not isinstance(n, int):
+        raise OutsideSubset("argsort of a symbolic-length array")
+    used(interp, "argsort")
+    cnt = interp.__dict__.setdefault("_nargsort", [0])
+    cnt[0] += 1
+    idx = [z3.Int("argsort!%d!%d" % (cnt[0], i)) for i in range(n)]
+    facts = [z3.And(x >= 0, x < n) for x in idx]
+    if n > 1:
+        facts.append(z3.Distinct(*idx))
+    for i in range(n - 1):
+        facts.append(get(idx[i]) <= get(idx[i + 1]))
+    if facts:
+        interp.assume(z3.And(*facts))
+    return arr_copy(interp, interp.new_list([Sym(x) for x in idx]), kind="int")
+
+
+axiom("argsort", "np.argsort returns a permutation of the indices that puts the keys in non-decreasing order (order of ties unspecified)")
+
+
+def np_cumop(which):
+    def f(interp, args, kw):
+        a = args[0]
+        n, get, k = seq_view_frozen(interp, a)
+        if not isinstance(n, int):
+            raise OutsideSubset("np.cum%s of a symbolic-length array" % which)
+        items, acc = [], None
+        for i in range(n):
+            x = Sym(get(z3.IntVal(i)))
+            acc = x if acc is None else (arith("*", acc, x) if which == "prod" else arith("+", acc, x))
+            items.append(acc)
+        return arr_copy(interp, interp.new_list(items), kind=k)
+    return f
+
+
 def np_size(interp, args, kw):
     return as_len(interp, args[0])
 
@@ -1579,6 +1649,12 @@ def install(interp):
     m[np.amax] = np_extreme("max")
     m[np.sort] = np_sort
     m[np.arange] = np_arange
+    m[np.where] = np_where3
+    m[np.argsort] = np_argsort
+    m[np.cumprod] = np_cumop("prod")
+    m[np.cumsum] = np_cumop("sum")
+    m[np.ceil] = np_ceil
+    m[math.ceil] = np_ceil
     m[np.size] = np_size
     m[np.argmin] = np_argextreme("min")
     m[np.argmax] = np_argextreme("max")
